@@ -82,3 +82,142 @@ func VerifParseCommandLine(args []string) VerifParseCommandLineResult {
 	r.Stdout, r.Stderr = out.String(), err.String()
 	return r
 }
+
+// ---------- Logger scripts (C08, C06log; the Autofix builders may reuse them) ----------
+
+type VerifLoggerOpts struct {
+	ShowAutofix, Autofix, Explain, ShowSource, GccOutput, Quiet bool
+	Only                                                        []string
+}
+
+type VerifLine struct {
+	File   string
+	Lineno int      // 0 = whole file, -1 = EOF
+	Raws   []string // orignl of every raw line
+}
+
+type VerifAction struct {
+	Descr  string
+	Lineno int
+}
+
+// VerifEvent is one call into the Logger.
+//
+//	'D' Logger.Diag(line, level, Format, Arg)       level 'E' 'W' 'N'; HasArg: Format contains one %s
+//	'X' Logger.Explain(Expl...)
+//	'F' Autofix.Apply on Line, with line.fix = (Above, Texts, Below), the diagnostic
+//	    (Level, Format, Arg; Level 'Z' = Silent()), Expl and Actions
+//	'S' SaveAutofixChanges on Line with fix.modified = Modified (only without --autofix)
+//	'T' Logger.TechErrorf(Loc, "%s", Msg)
+//	'Y' Logger.ShowSummary(Args)
+type VerifEvent struct {
+	Kind                byte
+	Line                int
+	Level               byte
+	Format, Arg         string
+	HasArg              bool
+	Expl                []string
+	Above, Texts, Below []string
+	Actions             []VerifAction
+	Modified            bool
+	Loc, Msg            string
+	Args                []string
+}
+
+type VerifLoggerResult struct {
+	Stdout, Stderr           string
+	Errors, Warnings, Notes  int
+	ExplAvail, AutofixAvail  bool
+	SuppressDiag, SuppressEx bool
+	Panic                    string
+	EventsDone               int
+}
+
+// VerifLoggerScript drives the real Logger (fresh G, output captured) with the given events.
+func VerifLoggerScript(opts VerifLoggerOpts, lines []VerifLine, events []VerifEvent) VerifLoggerResult {
+	verifC08Mu.Lock()
+	defer verifC08Mu.Unlock()
+	var out, err bytes.Buffer
+	saved := G
+	defer func() { G = saved }()
+	G = NewPkglint(&out, &err)
+	G.Logger.Opts = LoggerOpts{ShowAutofix: opts.ShowAutofix, Autofix: opts.Autofix, Explain: opts.Explain,
+		ShowSource: opts.ShowSource, GccOutput: opts.GccOutput, Quiet: opts.Quiet, Only: opts.Only}
+	ls := make([]*Line, len(lines))
+	for i, vl := range lines {
+		var raws []*RawLine
+		text := ""
+		for j, r := range vl.Raws {
+			raws = append(raws, &RawLine{r})
+			if j == 0 {
+				text = strings.TrimSuffix(r, "\n")
+			}
+		}
+		ls[i] = NewLineMulti(NewCurrPathString(vl.File), vl.Lineno, text, raws)
+	}
+	level := func(b byte) *LogLevel {
+		switch b {
+		case 'E':
+			return Error
+		case 'W':
+			return Warn
+		}
+		return Note
+	}
+	var r VerifLoggerResult
+	r.Panic = VerifPanic(func() {
+		for _, ev := range events {
+			var args []interface{}
+			if ev.HasArg {
+				args = []interface{}{ev.Arg}
+			}
+			switch ev.Kind {
+			case 'D':
+				G.Logger.Diag(ls[ev.Line], level(ev.Level), ev.Format, args...)
+			case 'X':
+				G.Logger.Explain(ev.Expl...)
+			case 'F':
+				line := ls[ev.Line]
+				fix := line.Autofix()
+				fix.above, fix.texts, fix.below = ev.Above, ev.Texts, ev.Below
+				switch ev.Level {
+				case 'E':
+					fix.Errorf(ev.Format, args...)
+				case 'W':
+					fix.Warnf(ev.Format, args...)
+				case 'N':
+					fix.Notef(ev.Format, args...)
+				default:
+					fix.Silent()
+				}
+				if len(ev.Expl) > 0 && ev.Level != 'Z' {
+					fix.Explain(ev.Expl...)
+				}
+				for _, a := range ev.Actions {
+					fix.actions = append(fix.actions, autofixAction{a.Descr, a.Lineno})
+				}
+				fix.Apply()
+			case 'S':
+				line := ls[ev.Line]
+				line.Autofix().modified = ev.Modified
+				if !G.Logger.Opts.Autofix {
+					SaveAutofixChanges(NewLines(line.Filename(), []*Line{line}))
+				}
+			case 'T':
+				G.Logger.TechErrorf(NewCurrPathString(ev.Loc), "%s", ev.Msg)
+			case 'Y':
+				G.Logger.ShowSummary(ev.Args)
+			}
+			r.EventsDone++
+		}
+	})
+	l := &G.Logger
+	r.Stdout, r.Stderr = out.String(), err.String()
+	r.Errors, r.Warnings, r.Notes = l.errors, l.warnings, l.notes
+	r.ExplAvail, r.AutofixAvail = l.explanationsAvailable, l.autofixAvailable
+	r.SuppressDiag, r.SuppressEx = l.suppressDiag, l.suppressExpl
+	return r
+}
+
+// VerifEscapePrintable exposes escapePrintable (C06log).
+func VerifEscapePrintable(s string) string { return escapePrintable(s) }
